@@ -11,3 +11,24 @@ Proof.
   destruct ((c_reqID x =? id) && match c_reqMsg x with Some _ => true | None => false end); [discriminate|reflexivity].
 Qed.
 Print Assumptions C04_stale_resend_noop.
+
+From MV Require Import Proofs.ReqResend.
+
+(* for EVERY state: whatever the send loop writes to a pipe is the message stored in the context -- header = the id the
+   request was given when it was accepted, body = its bytes -- never another context's, never a reply, never altered *)
+Theorem C04_transmission_is_stored_request : forall s c p x pp sq rq,
+  exists mid body, (match c_reqMsg (sched_ctx x p) with Some m => m | None => (0, []) end) = (mid, body) /\
+    out (send_one s c p x pp sq rq) = OTx p (req_hdr mid) body :: out s.
+Proof. exact send_one_tx. Qed.
+Print Assumptions C04_transmission_is_stored_request.
+
+(* for EVERY state in which a context still waits for the answer to request `id` (nothing queued, a pipe ready): when its
+   retry timer fires, exactly that request is written again -- same id, same bytes -- once, to the first ready pipe, which
+   then returns to the ready queue *)
+Theorem C04_retry_retransmits_the_request : forall s c id x mid body p rq pp,
+  aget c (ctxs s) = Some x -> c_reqID x = id -> c_reqMsg x = Some (mid, body) -> c_sendMsg x = None -> c_queued x = false ->
+  sendQ s = [] -> readyQ s = p :: rq -> get_pipe s p = Some pp -> pp_hold pp = false ->
+  let s' := resend_message s c id in
+  out s' = OTx p (req_hdr mid) body :: out s /\ readyQ s' = rq ++ [p] /\ sendQ s' = [].
+Proof. exact resend_transmits_own_request. Qed.
+Print Assumptions C04_retry_retransmits_the_request.
